@@ -290,7 +290,8 @@ def check_definition(args):
 
 def offender_kind(fields, members, k):
     if k is None or k >= len(fields):
-        return "/".join(sorted(set(f[0].split(":")[0] for f in fields)))
+        # aggregate kinds keep their type name (a finding about one nested type must not hide another's)
+        return "/".join(sorted(set(f[0] if f[0].startswith(("st:", "un:", "starr:")) else f[0].split(":")[0] for f in fields)))
     return fields[k][0].split(":")[0] + (":" + fields[k][0].split(":")[1] if fields[k][0].startswith(("st", "un", "td", "bits", "arr", "starr")) else "")
 
 
